@@ -338,7 +338,7 @@ def harness(ctx):
                 if msg not in ctx.broken:
                     ctx.broken.append(msg)
             return exe
-    raise vlib.Infra('hex harness does not compile against the tree: ' + log[-1500:])
+    raise vlib.Unbuildable('hex harness does not compile against the tree: ' + log[-1500:])
 
 
 def run_impl(exe, ops, timeout=300):
